@@ -1,10 +1,10 @@
 import Mimic.Drv
 open Mimic.Drv
 
-partial def loop (h : IO.FS.Stream) (out : IO.FS.Stream) (st : St) : IO Unit := do
+partial def loop (h : IO.FS.Stream) (out : IO.FS.Stream) (st : Multi) : IO Unit := do
   let line ← h.getLine
   if line.isEmpty then return ()
-  let (st', o) := handle st ((line.dropEndWhile (fun c => c == '\n' || c == '\r')).toString)
+  let (st', o) := handleMulti st ((line.dropEndWhile (fun c => c == '\n' || c == '\r')).toString)
   out.putStrLn o
   loop h out st'
 
